@@ -86,7 +86,7 @@ Definition pair_rules (k : know) (i1 i2 : instr) : bool * bool * bool * bool :=
             || cmp_rule (k_x k) CPX i1 i2
             || cmp_rule (k_y k) CPY i1 i2 in
   let rs := (is JMP JMP && negb p1 && negb p2)
-            || (is STA LDA && same && negb p2)
+            || (is STA LDA && same && flags_is_A (k_flags k) && negb p2)
             || (is LDA STA && same && negb p2)
             || (is LDY STY && same && negb p2)
             || (is LDX STX && same && negb p2)
@@ -94,7 +94,7 @@ Definition pair_rules (k : know) (i1 i2 : instr) : bool * bool * bool * bool :=
             || (is TXA TAX && negb p2)
             || (is TAY TYA && negb p2)
             || (is TYA TAY && negb p2)
-            || (mnem_eqb m2 ORA && String.eqb (i_op i2) "#0" && negb p2) in
+            || (mnem_eqb m2 ORA && String.eqb (i_op i2) "#0" && flags_is_A (k_flags k) && negb p2) in
   let rf := (is LDA LDA && negb p1) || (is LDY LDY && negb p1) || (is LDX LDX && negb p1) in
   let sw := mnem_eqb m1 LDA && (mnem_eqb m2 SEC || mnem_eqb m2 CLC) in
   (rb, rf, rs, sw).
@@ -148,7 +148,8 @@ Definition transfer (k : know) (i : instr) (ahead : list line) : know * bool :=
                 then (if flags_is_A fl then negb (i_prot i)
                       else if lda_lookahead ahead then negb (i_prot i) else false)
                 else false in
-      (mkK (Some o) x y FA, rs)
+      (* a load dropped because of what follows it sets no flag *)
+      (mkK (Some o) x y (if negb rs || flags_is_A fl then FA else fl), rs)
   | LDX =>
       let rs := if opt_eqb x o
                 then (match fl with
@@ -156,7 +157,8 @@ Definition transfer (k : know) (i : instr) (ahead : list line) : know * bool :=
                       | _ => if ldxy_lookahead ahead then negb (i_prot i) else false
                       end)
                 else false in
-      (mkK (kill_if ends_x a) (Some o) (kill_if ends_x y) FX, rs)
+      (mkK (kill_if ends_x a) (Some o) (kill_if ends_x y)
+           (if negb rs || match fl with FX => true | _ => false end then FX else fl), rs)
   | LDY =>
       let rs := if opt_eqb y o
                 then (match fl with
@@ -164,7 +166,8 @@ Definition transfer (k : know) (i : instr) (ahead : list line) : know * bool :=
                       | _ => if ldxy_lookahead ahead then negb (i_prot i) else false
                       end)
                 else false in
-      (mkK (kill_if ends_y a) (kill_if ends_y x) (Some o) FY, rs)
+      (mkK (kill_if ends_y a) (kill_if ends_y x) (Some o)
+           (if negb rs || match fl with FY => true | _ => false end then FY else fl), rs)
   | DEC | INC =>
       let kl := kill_if (fun v => negb (is_imm v)) in
       (mkK (kl a) (kl x) (kl y) FUnknown, false)
@@ -195,7 +198,7 @@ Definition transfer (k : know) (i : instr) (ahead : list line) : know * bool :=
   | ADC | SBC | EOR | AND | ORA | PLA => (mkK None x y FA, false)
   | PHA => (mkK None x y fl, false)
   | PLP => (mkK a x y FUnknown, false)
-  | JSR | JMP => (mkK None None None fl, false)
+  | JSR | JMP => (mkK None None None FUnknown, false)
   | CPX | CPY | CMP => (mkK a x y FUnknown, false)
   | _ => (k, false)
   end.
